@@ -625,6 +625,153 @@ def op_inheritance_gadgets(mm0: MetaModel, rng: random.Random) -> List[Mutant]:
     return out
 
 
+
+# -------------------------------------------------------------------------------------
+# Name clashes across all pairs of kinds of top-level names
+# -------------------------------------------------------------------------------------
+_KINDS = ("class", "enumeration", "constrained_primitive", "constant", "constant_set", "function")
+
+
+def _names_of_kind(mm: MetaModel, kind: str) -> List[str]:
+    if kind == "class":
+        return [c.name for c in mm.classes]
+    if kind == "enumeration":
+        return [e.name for e in mm.enumerations]
+    if kind == "constrained_primitive":
+        return [c.name for c in mm.constrained_primitives]
+    if kind == "constant":
+        return [c.name for c in mm.constants if isinstance(c, ConstantPrimitive)]
+    if kind == "constant_set":
+        return [c.name for c in mm.constants if isinstance(c, mmg.ConstantSet)]
+    return [f.name for f in mm.verification_functions]
+
+
+def _add_of_kind(mm: MetaModel, kind: str, name: str) -> None:
+    if kind == "class":
+        mm.classes.append(Class(name=name, doc=Doc("Represent a clash.")))
+    elif kind == "enumeration":
+        mm.enumerations.append(Enumeration(name=name, literals=[EnumLiteral("Some_literal", "some-literal")],
+                                           doc=Doc("Enumerate a clash.")))
+    elif kind == "constrained_primitive":
+        mm.constrained_primitives.append(mmg.ConstrainedPrimitive(name=name, constrainee="str",
+                                                                  doc=Doc("Constrain a clash.")))
+    elif kind == "constant":
+        mm.constants.append(ConstantPrimitive(name, "str", "clash"))
+    elif kind == "constant_set":
+        mm.constants.append(mmg.ConstantSet(name, "str", ["clash"]))
+    else:
+        mm.verification_functions.append(VerificationFunction(
+            name=name, kind="pattern", args=[("text", TPrim("str"))], pattern="^x$", pattern_style=0))
+
+
+def op_cross_kind_names(mm0: MetaModel, rng: random.Random) -> List[Mutant]:
+    """Every unordered pair of kinds: a new thing of one kind named like an existing thing of
+    the other kind (both orientations when possible, one chosen at random). With the control:
+    one fresh thing of every kind, all differently named."""
+    out: List[Mutant] = []
+    mm = copy.deepcopy(mm0)
+    base = _fresh(mm, rng, "Fresh")
+    for k in _KINDS:
+        _add_of_kind(mm, k, f"{base}_{k}")
+    out.append(_finish("valid_control:fresh_thing_of_every_kind", mm, "control: one more thing of every kind"))
+    host = mm   # the control has a thing of every kind, so every pair of kinds has a site in every model
+    for i, ka in enumerate(_KINDS):
+        for kb in _KINDS[i + 1:]:
+            existing, added = rng.choice([(ka, kb), (kb, ka)])
+            name = rng.choice(_names_of_kind(host, existing))
+            mm = copy.deepcopy(host)
+            _add_of_kind(mm, added, name)
+            out.append(_finish(f"name_clash:{min(ka, kb)}+{max(ka, kb)}", mm,
+                               f"a new {added} is named like the existing {existing} {name}"))
+    return out
+
+
+# -------------------------------------------------------------------------------------
+# Constructor argument type versus property type, every shape
+# -------------------------------------------------------------------------------------
+def _retypings(t: Any) -> List[Tuple[str, Any]]:
+    out: List[Tuple[str, Any]] = []
+    if isinstance(t, TOpt):
+        out.append(("optional_property_mandatory_argument", t.value))
+        if isinstance(t.value, TList):
+            out.append(("optional_list_property_list_argument", t.value))
+            out.append(("optional_list_item_changed", TOpt(TList(mmg._other_type(t.value.items)))))  # noqa
+        else:
+            out.append(("optional_base_changed", TOpt(mmg._other_type(t.value))))  # noqa
+    else:
+        out.append(("mandatory_property_optional_argument", TOpt(t)))
+        if isinstance(t, TList):
+            out.append(("list_property_item_argument", t.items))
+            out.append(("list_property_optional_list_argument", TOpt(t)))
+            out.append(("list_item_changed", TList(mmg._other_type(t.items))))  # noqa
+        else:
+            out.append(("scalar_property_list_argument", TList(t)))
+            out.append(("base_changed", mmg._other_type(t)))  # noqa
+    seen = set()
+    uniq = []
+    for rule, new in out:
+        if (rule, new) not in seen and new != t:
+            seen.add((rule, new))
+            uniq.append((rule, new))
+    return uniq
+
+
+def _retyped_ctor(mm: MetaModel, c: Class, arg_name: str, new_type: Any) -> mmg.Ctor:
+    """The derived constructor with one argument re-typed; the default follows the new type and the
+    arguments are put back into the order of the properties within the two groups, so that the
+    mutant breaks only the type rule (and stays valid Python)."""
+    ctor = mmg.derive_ctor(mm, c)
+    order = {p.name: i for i, (p, _) in enumerate(mmg.stacked_properties(mm, c))}
+    for a in ctor.args:
+        if a.name == arg_name:
+            a.type = new_type
+            a.default = "None" if isinstance(new_type, TOpt) else None
+    req = sorted([a for a in ctor.args if a.default is None], key=lambda a: order[a.name])
+    opt = sorted([a for a in ctor.args if a.default is not None], key=lambda a: order[a.name])
+    ctor.args[:] = req + opt
+    return ctor
+
+
+def op_ctor_types(mm0: MetaModel, rng: random.Random) -> List[Mutant]:
+    out: List[Mutant] = []
+    # a gadget class with a property of every shape, so that every re-typing has a site in every model
+    base = _fresh(mm0, rng, "Shapes")
+    item, holder = f"{base}_item", f"{base}_holder"
+    w = _fresh(mm0, rng, "shape").lower()
+    gadget = [
+        Class(name=item, properties=[Property(w + "_amount", TPrim("int"))], doc=Doc("Represent an item.")),
+        Class(name=holder, doc=Doc("Represent a holder of every shape."), properties=[
+            Property(w + "_a", TPrim("str")), Property(w + "_b", TOpt(TPrim("str"))),
+            Property(w + "_c", TList(TOur(item))), Property(w + "_d", TOpt(TList(TOur(item)))),
+            Property(w + "_e", TOur(item)), Property(w + "_f", TOpt(TOur(item)))]),
+    ]
+    host = copy.deepcopy(mm0)
+    host.classes.extend(gadget)
+    out.append(_finish("valid_control:properties_of_every_shape", host, f"control: {holder} with a property of every shape"))
+    for p in gadget[1].properties:
+        for rule, new in _retypings(p.type):
+            mm = copy.deepcopy(host)
+            c = mm.find_class(holder)
+            c.ctor_override = _retyped_ctor(mm, c, p.name, new)
+            out.append(_finish(f"ctor_type:{rule}", mm,
+                               f"constructor of {holder}: {p.name}: {mmg.type_str(new)} for the property typed "
+                               f"{mmg.type_str(p.type)}"))
+    # the same on one generated leaf class (own properties)
+    cands = [c for c in mmg._leaf_classes_with_ctor(mm0) if c.properties]  # noqa
+    if cands:
+        c0 = rng.choice(cands)
+        for p in c0.properties:
+            options = _retypings(p.type)
+            rule, new = rng.choice(options)
+            mm = copy.deepcopy(mm0)
+            c = mm.find_class(c0.name)
+            c.ctor_override = _retyped_ctor(mm, c, p.name, new)
+            out.append(_finish(f"ctor_type:{rule}", mm,
+                               f"constructor of {c.name}: {p.name}: {mmg.type_str(new)} for the property typed "
+                               f"{mmg.type_str(p.type)}"))
+    return out
+
+
 def all_mutants(mm: MetaModel, rng: random.Random, reserved: Dict[str, Any], repeats: int = 2) -> List[Mutant]:
     """mmgen's 18 operators (``repeats`` random sites each) plus the operators above;
     duplicates (same text) removed, the valid text itself never returned."""
@@ -645,6 +792,8 @@ def all_mutants(mm: MetaModel, rng: random.Random, reserved: Dict[str, Any], rep
     out += op_doc_refs(mm, sub())
     out += op_patterns(mm, sub())
     out += op_inheritance_gadgets(mm, sub())
+    out += op_cross_kind_names(mm, sub())
+    out += op_ctor_types(mm, sub())
     base = mmg.render_source(mm)
     seen = {base}
     uniq = []
